@@ -555,6 +555,10 @@ class Models:
 
     # ------------------------------------------------------------------ containers: contains / getitem / setitem
     def contains(self, ip, container, item, node=None):
+        if isinstance(container, SOpt):
+            container = self.unopt(ip, container)
+            if container is None:
+                ip.raise_exc("TypeError", "argument of type 'NoneType' is not iterable")
         if isinstance(container, (tuple, PList)):
             items = container if isinstance(container, tuple) else container.items
             acc: Any = False
